@@ -54,11 +54,20 @@ func run(c *core.Ctx) {
 	c.Exhaustive = true
 	c.Note(fmt.Sprintf("exhaustive: all n in 0..%d x size in 1..%d x 6 functions with distinct elements; plus random", maxN, maxN+2))
 	// random: larger n, repeated elements
-	for i := c.N(300, 20000, 5000); i > 0; i-- {
+	for i := c.N(300, 6000, 5000); i > 0; i-- {
 		n := c.Rng.Size(c.N(300, 2000, 600))
 		in := c.Rng.Ints(n, -3, 9)
 		size := 1 + c.Rng.Size(n+3)
-		exec(c, Case{fns[c.Rng.Intn(len(fns))], in, size})
+		fn := fns[c.Rng.Intn(len(fns))]
+		if (fn == "Windowed" || fn == "WindowedFunc") && n >= size && (n-size+1)*size > 4000 {
+			// the output of Windowed is (n-size+1)*size numbers: keep it small by taking very small or near-n sizes
+			if c.Rng.Bool() {
+				size = 1 + c.Rng.Intn(3)
+			} else {
+				size = n - c.Rng.Intn(3)
+			}
+		}
+		exec(c, Case{fn, in, size})
 	}
 }
 
